@@ -30,7 +30,7 @@ PROPS = {
     "C10": dict(props="Props/C10.v", runner="conc",
                 families=["guards", "mixed", "churn", "multi"], scenarios=["s04", "s07", "s10", "s13", "s14"]),
     "C11": dict(props="Props/C11.v", runner="conc",
-                families=["churn", "seqchurn", "mixed"], scenarios=["s10", "s17"]),
+                families=["churn", "seqchurn", "mixed"], scenarios=["s10", "s17"], late=True),
     "C12": dict(props="Props/C12.v", runner="conc",
                 families=["multi", "mixed"], scenarios=["s06", "s11"]),
     "C13": dict(props="Props/C13.v", runner="conc",
